@@ -23,6 +23,7 @@ LEVEL_TEXT = (
     "diag(1/mean_e (m(real)-m(sim_e))^2), standardisation by |m(real)|; (R4) the positional packing of words must be "
     "injective for the alphabet in use. The numerical value of a loss and the array pipelines (FFT, moments, entropies) "
     "are not decided."
+    ' Included from C08: a loss class that overrides compute_loss must keep the base pipeline order (filters before aggregation), and values returned by user-supplied callables (moment calculators) are not modified in place.'
 )
 TECHNIQUE = "option-plumbing dataflow + rational normal forms against a published-formula table (path-sensitive forward substitution for MSM and the likelihood pipeline) + radix/alphabet rule"
 
